@@ -68,6 +68,10 @@ type VC struct {
 	frameID    int
 	pureDecl   map[string]bool
 	axiomsDone bool
+	axiomDecls []string
+	axiomNames []string
+	usedPures  map[string]bool
+	bseqSrc    map[Term][3]Term // Bytes constant -> (array, offset, length) it abstracts
 	unsupported []string
 	stack      []string
 	ifaceSpecsUsed map[string]bool
@@ -75,7 +79,7 @@ type VC struct {
 
 func newVC(prog *Program, db *SpecDB, fnName string) *VC {
 	return &VC{prog: prog, db: db, sorts: newSorts(), varSort: map[string]string{}, fnName: fnName,
-		trusted: map[string]bool{}, inlined: map[string]bool{}, pureDecl: map[string]bool{}, ifaceSpecsUsed: map[string]bool{}}
+		trusted: map[string]bool{}, inlined: map[string]bool{}, pureDecl: map[string]bool{}, usedPures: map[string]bool{}, ifaceSpecsUsed: map[string]bool{}}
 }
 
 func (vc *VC) fresh(prefix, sort string) Term {
@@ -410,6 +414,10 @@ func (vc *VC) script(o *Obligation) string {
 		b.WriteString(d)
 		b.WriteByte('\n')
 	}
+	for _, d := range vc.axiomDecls {
+		b.WriteString(d)
+		b.WriteByte('\n')
+	}
 	for _, d := range vc.decls[:o.nDecl] {
 		b.WriteString(d)
 		b.WriteByte('\n')
@@ -447,6 +455,10 @@ func elemType(t types.Type) types.Type {
 func (vc *VC) bseq(arr, off, n Term) Term {
 	t := fmt.Sprintf("(bseq %s %s %s)", arr, off, n)
 	b := vc.define("bytes", "Bytes", t)
+	if vc.bseqSrc == nil {
+		vc.bseqSrc = map[Term][3]Term{}
+	}
+	vc.bseqSrc[b] = [3]Term{arr, off, n}
 	vc.assume(fmt.Sprintf("(=> (>= %s 0) (= (Bytes_len %s) %s))", n, b, n))
 	vc.assume(fmt.Sprintf("(forall ((i Int)) (! (=> (and (<= 0 i) (< i %s)) (= (Bytes_at %s i) (select %s (+ %s i)))) :pattern ((Bytes_at %s i))))", n, b, arr, off, b))
 	return b
